@@ -746,8 +746,51 @@ def c16_extra(ctx):
             ctx["violations"].append((f"printed form `{st}` of `{ls[k][0].strip()}` parses back to {y.get('cls')} `{y.get('str')}` {y.get('err', '')}",
                                       {"kind": "print-parse-roundtrip", "line": ls[k][0], "printed": st, "version": ver}))
             break
+    # (c) denotation of byte constants: decoded with Python's base64 module, independently of tealer and of the model
+    import base64
+    import binascii
+
+    def denoted(tok):
+        try:
+            if tok.startswith("0x"):
+                return bytes.fromhex(tok[2:])
+            for pre, dec, pad in (("base64", base64.b64decode, 4), ("b64", base64.b64decode, 4), ("base32", base64.b32decode, 8), ("b32", base64.b32decode, 8)):
+                if tok.startswith(pre + "(") and tok.endswith(")"):
+                    d = tok[len(pre) + 1:-1]
+                elif tok.startswith(pre + " "):
+                    d = tok[len(pre) + 1:].strip()
+                else:
+                    continue
+                if not d or not all(ch.isalnum() or ch in "+/=" for ch in d):
+                    return None
+                return dec(d + "=" * (-len(d) % pad))
+        except (binascii.Error, ValueError):
+            return None
+        return None
+
+    nden = 0
+    for k, (text, ver, kind) in enumerate(ls):
+        if kind not in ("bytes", "bytes-random") or '"' in text:
+            continue
+        body = text
+        for cut in (" //", "\t//"):
+            if cut in body:
+                body = body[:body.index(cut)]
+        toks = body.split(None, 1)
+        if len(toks) != 2 or toks[0] not in ("byte", "pushbytes"):
+            continue
+        want = denoted(" ".join(toks[1].split()))
+        y = i1.get(f"l{k}")
+        if want is None or not isinstance(y, dict) or "str" not in y:
+            continue
+        nden += 1
+        if y["str"].lower() != f"{toks[0]} 0x{want.hex()}":  # hex literals are printed with the source's letter case
+            ctx["violations"].append((f"`{text.strip()}` denotes the bytes 0x{want.hex()} but parses to `{y['str']}`",
+                                      {"kind": "byte-constant-denotation", "line": text, "version": ver, "expected": f"{toks[0]} 0x{want.hex()}", "got": y["str"]}))
+            break
     ctx["cov"]["spelling_twin_cases"] = nspell
     ctx["cov"]["roundtrip_cases"] = nrt
+    ctx["cov"]["byte_constant_denotation_cases"] = nden
 
 
 LINE_EXTRA["C16"] = c16_extra
